@@ -99,7 +99,7 @@ Inductive safe_trace : sst -> list (op * obs) -> sst -> Prop :=
 (* ------------------------------------------------------------------ *)
 Inductive ff_step : sst -> op -> obs -> sst -> Prop :=
 | FF_alloc s size al g s0 off F' :
-    0 < size -> is_pow2 al -> 0 <= g ->
+    0 <= size -> is_pow2 al -> 0 <= g ->
     (* growth only when no maximal free run can hold the request *)
     (0 < g -> scan (s_free s) size al = None) ->
     (* first fit in the (possibly enlarged) free list *)
@@ -107,7 +107,8 @@ Inductive ff_step : sst -> op -> obs -> sst -> Prop :=
     ff_step s (OAlloc size al) (RetOff off)
       (mkS (s_cap s + g) F' (mkR off size al :: s_live s) (s_lost s + (off - s0)))
 | FF_alloc0 s al off :
-    (* zero-size requests: any aligned in-bounds position, nothing changes *)
+    (* zero-size requests may also be served at any aligned in-bounds position
+       without changing anything (the property only constrains where BYTES go) *)
     is_pow2 al -> off mod al = 0 -> 0 <= off <= s_cap s ->
     ff_step s (OAlloc 0 al) (RetOff off)
       (mkS (s_cap s) (s_free s) (mkR off 0 al :: s_live s) (s_lost s))
@@ -175,6 +176,22 @@ Definition safe_stepb (pre : istate) (live : list region) (o : op) (r : obs) (po
   | _, _ => false
   end.
 
+(* the general first-fit clause; returns the padding lost by this allocation *)
+Definition alloc_general (pre post : istate) (size al off : Z) : option Z :=
+  let F := norm (snd pre) in
+  let F' := norm (snd post) in
+  let cap := fst pre in let cap' := fst post in
+  if (0 <=? size) && (cap <=? cap') &&
+     ((cap' =? cap) || match scan F size al with None => true | Some _ => false end)
+  then match scan (grow_chunks F cap (cap' - cap)) size al with
+       | Some (s0, o', G) => if (off =? o') && chunks_eqb F' G then Some (o' - s0) else None
+       | None => None
+       end
+  else None.
+Definition alloc_zero (pre post : istate) (size al off : Z) : bool :=
+  (size =? 0) && (off mod al =? 0) && (0 <=? off) && (off <=? fst pre) && (fst post =? fst pre)
+  && chunks_eqb (norm (snd post)) (norm (snd pre)).
+
 Definition ff_stepb (pre : istate) (live : list region) (o : op) (r : obs) (post : istate) : bool :=
   let F := norm (snd pre) in
   let F' := norm (snd post) in
@@ -182,13 +199,10 @@ Definition ff_stepb (pre : istate) (live : list region) (o : op) (r : obs) (post
   match o, r with
   | OAlloc size al, RetOff off =>
       pow2b al &&
-      if size =? 0 then (off mod al =? 0) && (0 <=? off) && (off <=? cap) && (cap' =? cap) && chunks_eqb F' F
-      else (0 <? size) && (cap <=? cap') &&
-           ((cap' =? cap) || match scan F size al with None => true | Some _ => false end) &&
-           match scan (grow_chunks F cap (cap' - cap)) size al with
-           | Some (_, o', G) => (off =? o') && chunks_eqb F' G
-           | None => false
-           end
+      match alloc_general pre post size al off with
+      | Some _ => true
+      | None => alloc_zero pre post size al off
+      end
   | OFree off size, RetUnit =>
       match find_region off size live with
       | Some x => (cap' =? cap) && chunks_eqb F' (add_chunk F (off, off + size))
@@ -202,11 +216,7 @@ Definition ff_stepb (pre : istate) (live : list region) (o : op) (r : obs) (post
 Definition lost_after (pre : istate) (lost : Z) (o : op) (r : obs) (post : istate) : Z :=
   match o, r with
   | OAlloc size al, RetOff off =>
-      if size =? 0 then lost else
-      match scan (grow_chunks (norm (snd pre)) (fst pre) (fst post - fst pre)) size al with
-      | Some (s0, o', _) => lost + (o' - s0)
-      | None => lost
-      end
+      match alloc_general pre post size al off with Some d => lost + d | None => lost end
   | _, _ => lost
   end.
 
